@@ -24,8 +24,12 @@ inductive DepOf (s : Source) : Nat → Nat → Prop
   | refl (a : Nat) : DepOf s a a
   | step {u i a : Nat} {it : Item} : it ∈ s → it.uid = a → i ∈ it.inputs → DepOf s u i → DepOf s u a
 
+/-- an empty definition mentions nothing (always true of the C++: `InputsFor` is computed from the
+definition text; a consistency condition on the abstraction `Item`) -/
+def EmptyDefsHaveNoInputs (s : Source) : Prop := ∀ it ∈ s, it.emptyDef = true → it.inputs = []
+
 def maxPart_spec_statement : Prop :=
-  ∀ (s : Source) (args res : List Nat), WfSource s → maxPart false s args = some res →
+  ∀ (s : Source) (args res : List Nat), WfSource s → EmptyDefsHaveNoInputs s → maxPart false s args = some res →
     (∀ u, u ∈ res ↔ (s.contains u = true ∧ InMax s args u)) ∧
     res.Sublist (s.map (·.uid)) ∧
     (∀ it ∈ s, it.uid ∈ res → ∀ i ∈ it.inputs, i ∈ res)
@@ -79,37 +83,24 @@ theorem DepOf.trans {s : Source} {u v a : Nat} (h1 : DepOf s u v) (h2 : DepOf s 
   | refl => exact h1
   | step hit huid hi _ ih => exact DepOf.step hit huid hi ih
 
-/-! ### maximal part
+/-! ### the pinned closure gap for base sets (repaired)
 
-`maxPart_spec_statement` is **false as written**: its third clause (the result is closed under
-recorded dependencies) fails for a selected base set whose (erroneous, non-empty) definition
-mentions another constituent. `IsCorrectlyDefined` accepts any base set among the arguments without
-looking at its inputs, and `CheckCst` never adds a constituent with an empty definition, so the
-mentioned constituent stays outside. In the C++ this is reachable: `CheckConstituenta` only
-*reports* a non-empty definition of a base set (`cstNonemptyBase`), the dependency graph still
-records the mentions (`UpdatableGraph::UpdateFor` does not look at the type). -/
+Before the `fix:` commit "OpMaxPart refuses a selected base set whose definition mentions something
+outside the selection", `IsCorrectlyDefined` accepted any base set among the arguments without
+looking at its inputs, so a base set with an (erroneous, but storable) non-empty definition could be
+selected alone and the result was not closed. The repaired code applies `CheckCst` to base sets
+too; such a selection is now refused. -/
 
 /-- `X1`, and a base set `X2` whose definition mentions `X1` -/
 def srcBaseWithInput : Source := [⟨1, [], true, true⟩, ⟨2, [1], false, true⟩]
 
-theorem maxPart_baseWithInput_counterexample :
-    WfSource srcBaseWithInput ∧ maxPart false srcBaseWithInput [2] = some [2] ∧
-    (⟨2, [1], false, true⟩ : Item) ∈ srcBaseWithInput ∧ (1 : Nat) ∉ [2] := by decide
-
-/-- the statement as written does not hold -/
-theorem maxPart_spec_statement_false : ¬ maxPart_spec_statement := by
-  intro h
-  have hc := maxPart_baseWithInput_counterexample
-  have := (h srcBaseWithInput [2] [2] hc.1 hc.2.1).2.2 ⟨2, [1], false, true⟩ hc.2.2.1
-    (by decide) 1 (by decide)
-  exact hc.2.2.2 this
+/-- the repaired code refuses the selection `{X2}` and accepts `{X1, X2}` -/
+theorem maxPart_baseWithInput_repaired :
+    WfSource srcBaseWithInput ∧ maxPart false srcBaseWithInput [2] = none ∧
+    maxPart false srcBaseWithInput [1, 2] = some [1, 2] := by decide
 
 /-- a base set records no dependency (true for every schema without the `cstNonemptyBase` error) -/
 def BaseSetsHaveNoInputs (s : Source) : Prop := ∀ it ∈ s, it.isBaseSet = true → it.inputs = []
-
-/-- an empty definition mentions nothing (always true of the C++: `InputsFor` is computed from the
-definition text; a consistency condition on the abstraction `Item`) -/
-def EmptyDefsHaveNoInputs (s : Source) : Prop := ∀ it ∈ s, it.emptyDef = true → it.inputs = []
 
 /-- `EmptyDefsHaveNoInputs` is needed too (at the level of the abstraction only): a selected
 constituent with an empty definition is accepted by `CheckCst` whatever its recorded inputs -/
@@ -125,13 +116,12 @@ instance (s : Source) : Decidable (EmptyDefsHaveNoInputs s) :=
   inferInstanceAs (Decidable (∀ it ∈ s, it.emptyDef = true → it.inputs = []))
 
 /-- **maxPart_spec_core**: membership and order clauses hold unconditionally; the closure clause
-holds for every selected constituent which, if it is a base set or has an empty definition, records
-no dependency -/
+holds for every selected constituent which, if it has an empty definition, records no dependency -/
 theorem maxPart_spec_core (s : Source) (args res : List Nat) (hwf : WfSource s)
     (h : maxPart false s args = some res) :
     (∀ u, u ∈ res ↔ (s.contains u = true ∧ InMax s args u)) ∧
     res.Sublist (s.map (·.uid)) ∧
-    (∀ it ∈ s, it.uid ∈ res → (it.isBaseSet = true → it.inputs = []) →
+    (∀ it ∈ s, it.uid ∈ res →
       (it.emptyDef = true → it.inputs = []) → ∀ i ∈ it.inputs, i ∈ res) := by
   unfold maxPart at h
   split at h
@@ -163,36 +153,29 @@ theorem maxPart_spec_core (s : Source) (args res : List Nat) (hwf : WfSource s)
     exact ⟨hsound u, fun h => hcompl u h.2⟩
   · rw [← h]
     exact sortSubset_sublist (fun u hu => (hsound u hu).1)
-  · intro it hit hres hb he i hi
+  · intro it hit hres he i hi
     rw [hmem] at hres ⊢
     have hfind := Source.find_of_mem hwf.1 hit
     rcases (hsound _ hres).2.inv with ha | ⟨it', hit', huid, hed, hin⟩
     · obtain ⟨it', hf', hc⟩ := hargs _ ha
       rw [hfind] at hf'
       cases hf'
-      rcases hc with hc | hc
-      · rw [hb hc] at hi
+      cases hed : it.emptyDef with
+      | true =>
+        rw [he hed] at hi
         cases hi
-      · cases hed : it.emptyDef with
-        | true =>
-          rw [he hed] at hi
-          cases hi
-        | false => exact hsub i ((checkCst_nonempty hed).1 hc i hi)
+      | false => exact hsub i ((checkCst_nonempty hed).1 hc i hi)
     · have hfind' := Source.find_of_mem hwf.1 hit'
       rw [huid, hfind] at hfind'
       cases hfind'
       exact hcompl i (hin i hi)
 
-/-- **maxPart_spec_partial**: `maxPart_spec_statement` under the two extra hypotheses on the
-source -/
-theorem maxPart_spec_partial (s : Source) (args res : List Nat) (hwf : WfSource s)
-    (hbase : BaseSetsHaveNoInputs s) (hempty : EmptyDefsHaveNoInputs s)
-    (h : maxPart false s args = some res) :
-    (∀ u, u ∈ res ↔ (s.contains u = true ∧ InMax s args u)) ∧
-    res.Sublist (s.map (·.uid)) ∧
-    (∀ it ∈ s, it.uid ∈ res → ∀ i ∈ it.inputs, i ∈ res) := by
+/-- **maxPart_spec**: the maximal part is exactly the least closed set over the selection, in
+list order, and is closed under dependencies -/
+theorem maxPart_spec : maxPart_spec_statement := by
+  intro s args res hwf hempty h
   obtain ⟨h1, h2, h3⟩ := maxPart_spec_core s args res hwf h
-  exact ⟨h1, h2, fun it hit hres => h3 it hit hres (hbase it hit) (hempty it hit)⟩
+  exact ⟨h1, h2, fun it hit hres => h3 it hit hres (hempty it hit)⟩
 
 /-! ### basis -/
 
@@ -263,15 +246,15 @@ def srcDemo : Source :=
   [⟨1, [], true, true⟩, ⟨2, [], true, true⟩, ⟨5, [4], false, false⟩, ⟨4, [3], false, false⟩,
    ⟨3, [1], false, false⟩, ⟨6, [2, 3], false, false⟩]
 
-/-- the hypotheses of `maxPart_spec_partial` are satisfiable and the operation succeeds -/
-example : WfSource srcDemo ∧ BaseSetsHaveNoInputs srcDemo ∧ EmptyDefsHaveNoInputs srcDemo ∧
+/-- the hypotheses of `maxPart_spec` are satisfiable and the operation succeeds -/
+example : WfSource srcDemo ∧ EmptyDefsHaveNoInputs srcDemo ∧
     maxPart false srcDemo [1] = some [1, 5, 4, 3] := by decide
 
 /-- the hypotheses of `basis_spec` are satisfiable and the operation succeeds -/
 example : WfSource srcDemo ∧ extractBasis srcDemo [6, 6] = some [1, 2, 3, 6] := by decide
 
 example : ∀ u, u ∈ [1, 5, 4, 3] ↔ (srcDemo.contains u = true ∧ InMax srcDemo [1] u) :=
-  (maxPart_spec_partial srcDemo [1] _ (by decide) (by decide) (by decide) (by decide)).1
+  (maxPart_spec srcDemo [1] _ (by decide) (by decide) (by decide)).1
 
 example : ∀ u, u ∈ [1, 2, 3, 6] ↔ ∃ a ∈ [6, 6], DepOf srcDemo u a :=
   (basis_spec srcDemo [6, 6] _ (by decide) (by decide)).1
